@@ -167,7 +167,7 @@ def c01(ctx):
             "another key / another alg, ECDSA specials (r,s in {0,n}, (r,n-s), re-padded or stripped r||s), EdDSA S+L, RSA zero byte, header alg swap with "
             "kept / empty-key-HMAC / public-PEM-HMAC / real-key signatures, payload change, part swaps, header re-encoding, std alphabet). "
             "Oracle: verify==0 => reference verifier accepts (lenient base64, header alg's algorithm, exact signing input). "
-            "Deterministic parts: (a) keys nobody can sign for - RSA public JWKs with made-up moduli of 2048..65536 bits, items flagged 'Invalid alg type' after loading, HS* tokens keyed with nothing / public PEM / raw public numbers against every asymmetric key - every token must be rejected via setkey and via callback; (b) for every EC key, signatures with short r, short s, both: all ten special encodings (the tenth: r = -e/d mod n, s = 1 - the verifier's point at infinity, which OpenSSL reports as an error) x provider x route; (c) same address, other key: with a recycling allocator (jwt_set_alloc) key A is loaded, used and freed, key B lands at its address and must reject A's tokens, accept its own and sign as B; (d) every asymmetric key's own kind of signature under a header that names an algorithm of another family (ES256-style under EdDSA/RS*/PS*, EdDSA under ES*, ...), key without alg attribute; (e) key history: K0 by setkey, a callback hands out KB for one token and then leaves the configuration alone or is removed - KB's tokens are rejected, K0's accepted. Signature extensions include 255/256/257/512..131072 characters; constant-fill signatures 0x00/0xff/0x80/0x7f. Non-trivial = the case reached signature evaluation (accepted, or rejected by the crypto layer); distinct by hash of (token, provider, key, alg, config).")
+            "Deterministic parts: (a) keys nobody can sign for - RSA public JWKs with made-up moduli of 2048..65536 bits, items flagged 'Invalid alg type' after loading, HS* tokens keyed with nothing / public PEM / raw public numbers against every asymmetric key - every token must be rejected via setkey and via callback; (b) for every EC key, signatures with short r, short s, both: all ten special encodings (the tenth: r = -e/d mod n, s = 1 - the verifier's point at infinity, which OpenSSL reports as an error) x provider x route; (c) same address, other key: with a recycling allocator (jwt_set_alloc) key A is loaded, used and freed, key B lands at its address and must reject A's tokens, accept its own and sign as B; (d) every asymmetric key's own kind of signature under a header that names an algorithm of another family (ES256-style under EdDSA/RS*/PS*, EdDSA under ES*, ...), key without alg attribute; (e) key history: K0 by setkey, a callback hands out KB for one token and then leaves the configuration alone or is removed - KB's tokens are rejected, K0's accepted; (f) concurrent retarget: 4 threads with own checkers and one shared key, two verify a genuine token, two a token carrying its signature under another payload - never accepted. Signature extensions include 255/256/257/512..131072 characters; constant-fill signatures 0x00/0xff/0x80/0x7f. Non-trivial = the case reached signature evaluation (accepted, or rejected by the crypto layer); distinct by hash of (token, provider, key, alg, config).")
     assumptions = ["reference verifier in vkeys.h on raw OpenSSL EVP decides validity (PSS: any salt length; ECDSA: fixed-width r||s)",
                    "structural forgeries only; primitives are trusted"]
     cov, mn = P.generic_harness_check(ctx, "C01_forge", rule, assumptions, min_nontrivial={"quick": 5000, "thorough": 50000})
@@ -239,7 +239,7 @@ def c07(ctx):
             "keys non-array, top-level array or scalar. Oracle: no sanitizer report or leak; not JSON (most lenient jansson flags) => set error + message + no new item; "
             "JSON (library flags) => no set error, item count = |keys| or 1, kid/oct bytes of item i come from element i, every item has error+message or known kty + "
             "key material (oct bytes equal decode of k; PEM parses; bits>0) and survives being used by a checker/builder. "
-            "Entries also load_fromfp/load_fromfile onto an existing set and jwks_create_from*; the existing set carries a stale error every second time and was emptied first (free_all / item by item) every second time; every reader of every item is called; application allocator and error-queue bits; one input in seven hands over ZERO bytes of an unterminated heap copy of the document (expected: error, no items). Non-trivial = document that parses and contains an element with a known kty (reached a per-type parser); distinct by hash of (document, entry, provider).")
+            "Entries also load_fromfp/load_fromfile onto an existing set and jwks_create_from*; the existing set carries a stale error every second time and was emptied first (free_all / item by item) every second time; every reader of every item is called; application allocator and error-queue bits; one input in seven hands over ZERO bytes of an unterminated heap copy of the document (expected: error, no items); a share of the inputs runs with a page-guard allocator (every block ends at an inaccessible page: over-reads inside uninstrumented libraries fault). Non-trivial = document that parses and contains an element with a known kty (reached a per-type parser); distinct by hash of (document, entry, provider).")
     assumptions = ["jansson decides what is JSON (most lenient flags for 'not JSON', library flags for 'JSON')",
                    "documents whose keys member is not an array are checked for memory safety and item well-formedness only (statement is silent)",
                    "libFuzzer campaigns are only approximately pinned by -seed; saved artifacts are the reproducible unit"]
@@ -259,7 +259,7 @@ def c04(ctx):
             "long-lived checkers (unsigned alg-none tokens without key; HS256 tokens with key). Each token is generated relative to the policy in force: exp/nbf = "
             "boundary+delta (delta in -2..2), 64-bit extremes, random, or a wrong JSON type (real, exponent, string, bool, null, array, object, beyond int64); iss/sub/aud "
             "absent, equal, prefix, extended, case-changed, empty, other, trailing space, wrong JSON type, or containing an escaped NUL. Oracle: verdict == reference policy "
-            "(both directions), return codes of configuration calls, jwt_checker_claim_get == model after every step. String claims also as expected value + 255/256/257/512/65536/65537 characters. Every second worker runs in a non-UTC time zone; every second sequence has an observing callback on both checkers. Non-trivial = verify decided within |delta|<=1 of a "
+            "(both directions), return codes of configuration calls, jwt_checker_claim_get == model after every step. String claims also as expected value + 255/256/257/512/65536/65537 characters. Every second worker runs in a non-UTC time zone; every second sequence has an observing callback on the checkers; signed tokens are verified under three checkers (explicit algorithm, algorithm from the key's attribute, key from a callback). Non-trivial = verify decided within |delta|<=1 of a "
             "boundary, by a wrong-typed claim, by a confusion string, or after a claim_del; distinct by hash of (payload, clock, leeways, expected claims, checker).")
     assumptions = ["clock in [0,2^41], leeways in negatives or [0,2^40] (no time_t overflow provoked)", "strings are valid UTF-8 without embedded NUL",
                    "the model follows the code for the leeway sign (exp > now - leeway, nbf <= now + leeway), as the statement does",
@@ -334,7 +334,7 @@ def c10(ctx):
             "statement: each output is h.p.s, each part strict unpadded base64url, h and p JSON objects json_equal to the model (alg forced, typ default on signed tokens only, "
             "iat/nbf/exp = clock+offset overriding builder claims, callback edits in that token only), s empty iff alg none else valid under the configured key by an "
             "independent verifier; generate fails exactly where the statement says (public key, failing callback, pair outside the table, unusable key); builder state "
-            "unchanged by generating; return codes of configuration calls. enable_iat arguments 0 and 1, 2, -1, 255, 256, 7, 65536, INT_MIN; second value table with 17-digit reals, DBL_MAX, 5e-324, 2^53+1, deep nesting; callbacks registered without a context; a callback that takes key and algorithm away. Non-trivial = sequence with >=2 generates and an overriding claim, a user alg/typ header, a mutating "
+            "unchanged by generating; return codes of configuration calls. enable_iat arguments 0 and 1, 2, -1, 255, 256, 7, 65536, INT_MIN; second value table with 17-digit reals, DBL_MAX, 5e-324, 2^53+1, deep nesting; callbacks registered without a context; a callback that takes key and algorithm away; moving-clock part: iat, nbf - offset, exp - offset of one token are one instant within the call. Non-trivial = sequence with >=2 generates and an overriding claim, a user alg/typ header, a mutating "
             "callback or an offset change between generates; distinct by hash of the operation list.")
     assumptions = ["controlled clock via link-time wrap of time()", "reference verifier on raw OpenSSL EVP", "values are valid UTF-8; names non-empty (C15 covers the rest)"]
     cov, mn = P.generic_harness_check(ctx, "C10_builder", rule, assumptions, min_nontrivial={"quick": 3000, "thorough": 50000})
@@ -354,7 +354,7 @@ def c13(ctx):
             "none with signature, NULL, empty) or one long-lived builder (the C10 operation alphabet incl. failing callbacks, public/weak/mismatched keys). After every "
             "verify/generate a fresh object is built, every configuration call made so far is replayed on it, and the same call is made at the same clock: return value and "
             "error flag must agree; tokens byte-equal for deterministic algorithms, header.payload equal otherwise. Message text is compared and histogrammed, not asserted. "
-            "Checker callbacks also leave the config in refused states (alg without key, alg != key alg, key without alg) and may hand out another key of the same kind and algorithm the next time; callbacks may be registered without a context; a builder callback may take key and algorithm away. Every case starts with a non-empty OpenSSL error queue and errno set. Non-trivial = sequence containing a call whose predecessor on the same object ended in the other verdict class without error_clear in between; distinct by hash of the operation list.")
+            "Checker callbacks also leave the config in refused states (alg without key, alg != key alg, key without alg) and may hand out another key of the same kind and algorithm the next time; callbacks may be registered without a context; a builder callback may take key and algorithm away; claim_set calls with a non-UTF-8 value (refused); callbacks may hand out a key with an unknown alg attribute. Every case starts with a non-empty OpenSSL error queue and errno set. Non-trivial = sequence containing a call whose predecessor on the same object ended in the other verdict class without error_clear in between; distinct by hash of the operation list.")
     assumptions = ["the harness callback's own counter is copied to the fresh object (it is not library state)", "provider is not switched inside a sequence"]
     cov, mn = P.generic_harness_check(ctx, "C13_history", rule, assumptions, min_nontrivial={"quick": 2000, "thorough": 20000})
     return P.finish(ctx, "exploration", cov, assumptions, mn)
@@ -394,7 +394,7 @@ def c14(ctx):
             "states x provider; every single-member defect (absent / null / number / bool / array / object / empty / non-base64 / too short) of every member of RSA, EC, OKP, oct "
             "JWKs (public and private), bare and inside a set; non-JSON documents; then rapidcheck histories over the C13 checker alphabet and the C10 builder alphabet. "
             "Oracle: verify != 0 <=> error flag, failure has a message, success leaves flag clear and message empty; generate NULL <=> flag set with message; bad keyring items "
-            "and errored sets carry a message; setters return value.error. Part E: out-of-domain set/get/del inputs compare the returned code with value.error. 23 checker configurations incl. callbacks that return 0 with a refused config and keys that are items flagged with a load error. Part A2: the clock moves (every time() reading advances it by 1/2/5 s) while tokens that expire or become valid within +-8 s are verified. Non-trivial = failing call; distinct by (cause class, configuration, object state) / hash of history.")
+            "and errored sets carry a message; setters return value.error. Part E: out-of-domain set/get/del inputs compare the returned code with value.error. 23 checker configurations incl. callbacks that return 0 with a refused config and keys that are items flagged with a load error or carry an unknown alg attribute. Part A2: the clock moves (every time() reading advances it by 1/2/5 s) while tokens that expire or become valid within +-8 s are verified. Non-trivial = failing call; distinct by (cause class, configuration, object state) / hash of history.")
     assumptions = ["strings are valid UTF-8; errored jwk items are not passed to setkey"]
     cov, mn = P.generic_harness_check(ctx, "C14_errors", rule, assumptions, min_nontrivial={"quick": 5000, "thorough": 50000})
     cov["cause_classes"] = sorted(k[6:] for k in cov["classes"] if k.startswith("cause:"))
